@@ -6,6 +6,7 @@ ends == exhaustive optimum over exactly the admissible routes (MinPathCover, Min
 import copy
 import networkx as nx
 import common, gen, gen2, zoo, props, oracles
+import gencheck
 
 LEVEL = "proof"
 EXPLANATION = ("Props/C10.v: for every assignment satisfying the generated rows each subpath constraint is realised to the requested "
@@ -288,3 +289,4 @@ def run(ctx):
         ctx.case(["scale0trusted", rep["instance"], rep["kwargs"]], nontrivial=True); ctx.count("E2_scale0_equals_ignore_trusted", "cases")
         if res[0][0] != res[1][0] or (res[0][0] is True and not same(res[0][1], res[1][1])):
             ctx.report(f"{name}: with trusted edges for safety, ignoring gives {res[0]} but error scale 0 on the same elements gives {res[1]}", rep)
+    gencheck.run_generated(ctx, ["max_occurrence"])      # generated-model tie of graphutils.max_occurrence (coq/gen_proofs)
